@@ -160,6 +160,7 @@ Proof.
   - unfold struct_param. cbn [enc_param]. unfold is_required. cbn [pkind_of]. rewrite Hl. cbn [negb orb guard bind].
     unfold vget. rewrite Hl. cbn [is_none negb guard bind opt_or0].
     cbn [enc_dop]. cbn [enc_composite].
+    no_own_keys ltac:(intros p Hp; apply in_map_iff in Hp as (x & <- & Hx); apply (proj2 (Hms x Hx))).
     destruct Hend as (Hb & _). cbn [set_bit e_bit Z.eqb guard bind].
     fold kv'. pose proof (known_members ms ms (incl_refl ms)) as Hkm. fold kv' in Hkm. rewrite Hkm. cbn [guard bind].
     unfold enc_go in He. unfold s0 in He. rewrite He. cbn [bind].
@@ -281,7 +282,10 @@ Proof.
   destruct (seq_loop F F kv (zlen ps) (e_eop (estate0 None)) ms s0 0 Hend0 Hg)
     as (s' & w & He & Hend' & Hwarn & Ho & Hm & Hdec).
   exists (e_msg s'). split.
-  - unfold encode_msg. rewrite EF. cbn [enc_composite]. cbn [estate0 e_bit Z.eqb guard bind].
+  - unfold encode_msg. rewrite EF. cbn [enc_composite].
+    no_own_keys ltac:(intros p Hp; unfold ps, ms in Hp; rewrite map_map in Hp; apply in_map_iff in Hp as (t & <- & Ht);
+                      apply member_no_lenkey; now apply Hts).
+    cbn [estate0 e_bit Z.eqb guard bind].
     pose proof (known_members ms ms (incl_refl ms)) as Hkm. fold ps in Hkm. fold kv in Hkm. rewrite Hkm.
     cbn [guard bind].
     unfold enc_go in He. fold ps in He. unfold s0 in He. rewrite He. cbn [bind].
